@@ -34,6 +34,25 @@ from ..api.tracepoint.tracepoint_config import LabelExpression, MetricDefinition
 from ..api.tracepoint.trigger import build_trigger, Trigger
 
 
+def safe_text(value):
+    """
+    Make text safe for a protobuf string field.
+
+    Protobuf strings have to be valid UTF-8. Text collected from the application (values, names, paths) can
+    contain characters that cannot be encoded (e.g. lone surrogates), which would lose the whole message, so
+    escape them instead.
+
+    :param value: the text (anything that is not a str is returned as it is)
+    :return: the text, with the characters that cannot be encoded escaped
+    """
+    if isinstance(value, str):
+        try:
+            value.encode("utf-8")
+        except UnicodeEncodeError:
+            return value.encode("utf-8", "backslashreplace").decode("utf-8")
+    return value
+
+
 def convert_value(value):
     """
     Convert a value from the python type.
@@ -45,7 +64,7 @@ def convert_value(value):
     if isinstance(value, bool):
         return AnyValue(bool_value=value)
     if isinstance(value, str):
-        return AnyValue(string_value=value)
+        return AnyValue(string_value=safe_text(value))
     if isinstance(value, int):
         return AnyValue(int_value=value)
     if isinstance(value, float):
@@ -61,7 +80,7 @@ def convert_value(value):
 
 
 def __value_as_dict(value):
-    return KeyValueList(values=[KeyValue(key=k, value=convert_value(v)) for k, v in value.items()])
+    return KeyValueList(values=[KeyValue(key=safe_text(k), value=convert_value(v)) for k, v in value.items()])
 
 
 def __value_as_list(value):
@@ -80,7 +99,7 @@ def convert_resource(resource):
 
 def __convert_attributes(attributes):
     return Resource(dropped_attributes_count=attributes.dropped,
-                    attributes=[KeyValue(key=k, value=convert_value(v)) for k, v in attributes.items()])
+                    attributes=[KeyValue(key=safe_text(k), value=convert_value(v)) for k, v in attributes.items()])
 
 
 def __convert_static_value(value):
